@@ -26,7 +26,21 @@ func (c *ctx) generatorOrder() {
 		}
 		for _, d := range fc.file.Decls {
 			fd, ok := d.(*ast.FuncDecl)
-			if !ok || fd.Body == nil || fd.Name.Name != "GenerateFile" {
+			if !ok || fd.Body == nil {
+				continue
+			}
+			// GenerateFile, or a step split out of it: any function of the generator that walks a slice field of
+			// the compiled file by the position of its elements while slicing the source buffer
+			slices := false
+			ast.Inspect(fd.Body, func(n ast.Node) bool {
+				if se, ok := n.(*ast.SliceExpr); ok {
+					if t := info.TypeOf(se.X); t != nil && t.String() == "[]byte" {
+						slices = true
+					}
+				}
+				return true
+			})
+			if fd.Name.Name != "GenerateFile" && !slices {
 				continue
 			}
 			ast.Inspect(fd.Body, func(n ast.Node) bool {
